@@ -1,7 +1,7 @@
 (* Properties/C15.v — wrapper selection is honoured (flag algebra); the file-list and directory
    statements are table theorems in dyn/C15_tables.v (regenerated from /repo on every run). *)
 From Coq Require Import List Bool.
-From Shroud Require Import Model.WrapFlags Proof.WrapFlags.
+From Shroud Require Import Base.Ustr Model.Names Proof.Names Proof.NamesWrap Model.WrapFlags Proof.WrapFlags.
 Import ListNotations.
 
 Theorem C15_promotion_is_exists : forall k n, flag_of k (promote n) = any_on k n.
@@ -20,6 +20,20 @@ Theorem C15_python_lua_flags_do_not_touch_c_fortran : forall k p l lib, (k = KC 
   emitted (set_py_lua p l lib) k = emitted lib k.
 Proof. exact py_lua_do_not_touch_c_fortran. Qed.
 Print Assumptions C15_python_lua_flags_do_not_touch_c_fortran.
+
+(* the flags of single declarations never renumber or rename the wrappers of the others: with every flag on the names are
+   those of the unflagged library, with some off they are a selection of them in the same order (Names.expand_w; the Python and
+   Lua flags are not consulted by the naming model at all) *)
+Theorem C15_declaration_flags_select_names : forall prefix scope fs ws,
+  c_names_w prefix scope fs ws = map (nm_c_name prefix scope) (filter (fun e => e_c e && flag_c ws e) (expand fs)) /\
+  f_names_w scope fs ws = map (nm_f_impl scope) (filter (fun e => e_f e && flag_f ws e) (expand fs)).
+Proof. intros. split; [apply c_names_w_spec | apply f_names_w_spec]. Qed.
+Print Assumptions C15_declaration_flags_select_names.
+
+Theorem C15_all_flags_on_same_names : forall prefix scope fscope fs ws, Forall (fun w => w = (true, true)) ws ->
+  c_names_w prefix scope fs ws = c_names prefix scope fs /\ f_names_w fscope fs ws = f_names fscope fs.
+Proof. exact all_on_same_names. Qed.
+Print Assumptions C15_all_flags_on_same_names.
 
 Example C15_example :
   let off := {| w_c := false; w_fortran := false; w_python := false; w_lua := false |} in
